@@ -36,6 +36,13 @@ def h_pdu(ctx, cfg, var, twin=False):
         u.pdu_header.pdu_type == 1))
     e, raw2 = call(u.pack)
     ctx.holds("repack identical", e is None and raw2 == raw, exc_name(e))
+    earlier_result_survives(ctx, lambda: sym_and(b.check(u), u == pdu, u.packet_len == len(raw), u.pack() == raw,
+                                                 u.pdu_header.source_entity_id.value == b.v["src"],
+                                                 u.pdu_header.transaction_seq_num.byte_len == b.v["seqw"]),
+                            [(lambda o=o: FileDataPdu.unpack(o)) for o in other_packets("filedata", cfg, var)] +
+                            [lambda: FileDataPdu.unpack(bytes(build(LenCtx(), "filedata", cfg, dict(ndata=3, nmeta=2)).pdu.pack())),
+                             lambda: FileDataPdu.unpack(bytes(build(LenCtx(), "filedata", cfg, dict(ndata=0)).pdu.pack()))])
+    pack_hands_out_fresh_buffers(ctx, pdu.pack, ref)
     if twin:
         ctx.holds("twin", raw != ref)
 
